@@ -22,7 +22,7 @@ def all_harnesses():
         for m in re.finditer(r'#\[kani::proof\](?:\s*#\[[^\]]*\])*\s*(?:pub )?fn (\w+)', txt):
             blk = txt[m.start():m.end()]
             um = re.search(r'kani::unwind\((\d+)\)', blk)
-            hs[m.group(1)] = {'file': fn, 'unwind': int(um.group(1)) if um else None}
+            hs[m.group(1)] = {'file': fn, 'unwind': int(um.group(1)) if um else None, 'should_panic': 'kani::should_panic' in blk}
     return hs
 
 
@@ -149,6 +149,12 @@ def run_harnesses(names, repo, outdir, prop=None, tier='quick', jobs=None, timeo
             h['bound'] = ('unwind %d' % known[n]['unwind']) if known[n]['unwind'] else 'loop-free'
             harnesses.append({k: v for k, v in h.items() if k != 'raw_tail'})
             if h['status'] == 'SUCCESSFUL':
+                if known[n].get('should_panic'):
+                    # success of a should_panic harness = the expected panic was reached on every path reaching it
+                    if not h['failed_checks']:
+                        raise Undecided('vacuity guard: should_panic harness %s reported no panic' % n)
+                    h['cover_satisfied'] = True
+                    continue
                 if not h['cover_satisfied']:
                     raise Undecided('vacuity guard: no cover property of harness %s is satisfied' % n)
                 continue
